@@ -52,7 +52,8 @@ CONSTANTS
   RdCap,     \* sock: max units one read event moves (evbuffer max_read)
   WrCap,     \* sock: max units one write event moves (max_single_write)
   Conn,      \* sock: endpoint 1 connects ("none" | "ok" | "refused")
-  Allow      \* known-finding triggers admitted into the corpus (normally {})
+  Allow,     \* known-finding triggers admitted into the corpus (normally {})
+  OneWay     \* TRUE: only endpoint 1 writes, only the far end is configured (narrow exhaustive alphabets)
 
 VARIABLES st, hist
 vars == <<st, hist>>
@@ -361,7 +362,10 @@ OpSetWm(S, e, d, lo, hi) ==
 
 (* bufferevent_set_timeouts -> adj_timeouts *)
 OpSetTmo(S, e, tr, tw) ==
-  LET S0 == [S EXCEPT !.b[e].tor = tr, !.b[e].tow = tw]
+  \* sockets: removing a timeout while the event is not added leaves the event's ev_io_timeout behind;
+  \* the next I/O activation re-arms the removed timeout (trigger "sock_stale_io_timeout")
+  LET stale == IsSock(e) /\ ((tr = 0 /\ S.b[e].tor > 0 /\ ~S.b[e].evr) \/ (tw = 0 /\ S.b[e].tow > 0 /\ ~S.b[e].evw))
+      S0 == [(IF stale THEN Dv(S, "sock_stale_io_timeout") ELSE S) EXCEPT !.b[e].tor = tr, !.b[e].tow = tw]
   IN IF IsSock(e)
      THEN LET S1 == IF S0.b[e].evr THEN (IF tr > 0 THEN [S0 EXCEPT !.b[e].rdl = S.now + tr, !.b[e].last = S.now]
                                            ELSE [S0 EXCEPT !.b[e].rdl = -1]) ELSE S0
@@ -398,6 +402,7 @@ OpConnect(S) ==
 
 Legal(S, e, a) ==
   /\ S.b[e].alive
+  /\ (OneWay => IF a = "write" THEN e # 2 ELSE (a \in {"enable", "disable", "wm", "tmo", "script"} => e = 2))
   /\ (a = "write" => ~S.b[e].fin /\ S.b[e].conn # "bad")
   /\ (IsSock(e) /\ S.b[e].conn = "new" => a \in {"connect", "script", "tmo", "wm"})
   /\ (a = "connect" => IsSock(e) /\ S.b[e].conn = "new")
@@ -534,9 +539,14 @@ TimeoutProcess(S, x) ==
   ELSE LET p == CHOOSE q \in DueSet(S, x) : \A r \in DueSet(S, x) :
                      Dl(S, q) < Dl(S, r) \/ (Dl(S, q) = Dl(S, r) /\ (q[1] < r[1] \/ (q[1] = r[1] /\ (q[2] = "rt" \/ r[2] = "wt"))))
            e == p[1]
+           \* an I/O event that is already active keeps its I/O result (the callback then ignores the
+           \* timeout); event_persist_closure restarts the interval from the old deadline, which only
+           \* equals "from now" when the deadline is now: otherwise left open (a starved loop)
            S1 == IF p[2] = "rt"
-                 THEN (IF IsSock(e) THEN Enq(SockDelR(S, e), "rt", e) ELSE Enq([S EXCEPT !.b[e].rdl = -1], "rt", e))
-                 ELSE (IF IsSock(e) THEN Enq(SockDelW(S, e), "wt", e) ELSE Enq([S EXCEPT !.b[e].wdl = -1], "wt", e))
+                 THEN (IF IsSock(e) /\ InQ(S, "rio", e) THEN [S EXCEPT !.b[e].rdl = -1, !.open = @ \/ S.b[e].rdl < S.now]
+                       ELSE IF IsSock(e) THEN Enq(SockDelR(S, e), "rt", e) ELSE Enq([S EXCEPT !.b[e].rdl = -1], "rt", e))
+                 ELSE (IF IsSock(e) /\ InQ(S, "wio", e) THEN [S EXCEPT !.b[e].wdl = -1, !.open = @ \/ S.b[e].wdl < S.now]
+                       ELSE IF IsSock(e) THEN Enq(SockDelW(S, e), "wt", e) ELSE Enq([S EXCEPT !.b[e].wdl = -1], "wt", e))
        IN TimeoutProcess(S1, x)
 
 Handle(S, it) ==
